@@ -63,7 +63,7 @@ ChkUn(e, g) ==
         a == Abs(t, e.a)
     IN If(g.bot # B(IsBot(t, a)), "C03|@/is_bot/result")
        \cup (IF g.top = B(IsTop(t, a)) THEN {}
-             ELSE IF g.top = B(IsTopCode(t, e.a)) THEN {"C03|withtop/is_top/some-inner-top"}
+             ELSE IF g.top = B(IsTopPreFix(t, e.a)) THEN {"C03|withtop/is_top/some-inner-top"}
              ELSE {"C03|@/is_top/result"})
 
 ChkDefault(e, g) ==
